@@ -380,13 +380,39 @@ func runEngineCase(a *eApp, c *eCfg, persisted bool, inputs [][]byte) ([]eStep, 
 			s.Path = strings.Join(st.ExecPath, "/")
 		}
 		s.nCalls = len(w.calls)
-		if !persisted && !s.Cont {
-			dead = true // "Calling Exec again has undefined effects"
+		if !persisted && !s.Cont && !refusedInput(in) {
+			// "Calling Exec again has undefined effects" -- except after a REFUSED input (an over-long
+			// input is answered with cont=false too), which must leave no trace
+			dead = true
 		}
 		s.term = fmt.Sprintf("(%s, mkEobs %s %s %s %s %s %s)", hx.B(in), hx.Bool(s.Cont), s.Exec, hx.B(out), s.Flush, snap, callsTerm(w.calls))
 		steps = append(steps, s)
 	}
 	return steps, nil
+}
+
+// refusedInput mirrors the engine's documented refusal: longer than the input limit, or
+// non-empty and not matching the builtin input pattern (first byte alphanumeric after an optional
+// '+', no line feed)
+func refusedInput(in []byte) bool {
+	if len(in) > 255 {
+		return true
+	}
+	if len(in) == 0 {
+		return false
+	}
+	b := in
+	if b[0] == '+' {
+		b = b[1:]
+	}
+	if len(b) == 0 {
+		return true
+	}
+	c := b[0]
+	if !(c >= '0' && c <= '9' || c >= 'a' && c <= 'z' || c >= 'A' && c <= 'Z') {
+		return true
+	}
+	return bytes.IndexByte(b, 0x0a) >= 0
 }
 
 // ---- generators ------------------------------------------------------------------------
@@ -758,8 +784,11 @@ func genApp(r *rand.Rand) genOut {
 
 func genHistory(r *rand.Rand, sels []string, n int) [][]byte {
 	h := [][]byte{[]byte{}}
-	if r.Intn(10) == 0 {
+	switch r.Intn(20) {
+	case 0, 1:
 		h[0] = []byte(pick(r, sels))
+	case 2: // a session that starts with a refused input
+		h[0] = []byte(pick(r, []string{strings.Repeat("a", 300), "!bad", " "}))
 	}
 	for i := 0; i < n; i++ {
 		k := r.Intn(100)
@@ -776,7 +805,7 @@ func genHistory(r *rand.Rand, sels []string, n int) [][]byte {
 		case k < 90:
 			in = pick(r, []string{"zz", "q", "+1", "7 7", "abc'def"})
 		case k < 97:
-			in = pick(r, []string{"!bad", " 1", "-", "\x00", "\n1", "é", "1\n", "1\n2", "+254\n1", "a\nb"})
+			in = pick(r, []string{"!bad", " 1", "-", "\x00", "\n1", "é", "1\n", "1\n2", "+254\n1", "a\nb", " ", "\t", "\n", "\r\n", "  "})
 		default:
 			in = strings.Repeat("1", 256+r.Intn(45))
 		}
@@ -879,6 +908,10 @@ var engineCorpus = []corpusCase{
 		fn: map[string][]eFres{"xx": st1("alpha\nbeta\ngamma")}, cfg: eCfg{FlagCount: 1, Out: 100}, inputs: []string{"", "1", "0", "2", "0"}},
 	{name: "oversize-64k", nodes: [][3]string{{"root", "LOAD aa 10; MAP aa; HALT; INCMP foo 1", "root {{.aa}}"}, {"foo", "HALT; INCMP _ 0", "foo"}, {"_catch", "HALT; INCMP _ *", "catch"}},
 		fn: map[string][]eFres{"aa": []eFres{{Content: strings.Repeat("q", 65546)}, {Content: "ok"}}}, cfg: eCfg{FlagCount: 1}, inputs: []string{"", "1"}},
+	{name: "refused-first-request", nodes: [][3]string{{"root", "HALT; INCMP foo 1", "root"}, {"foo", "HALT; INCMP _ 0", "foo"}, {"_catch", "HALT; INCMP _ *", "catch"}},
+		cfg: eCfg{FlagCount: 1}, inputs: []string{strings.Repeat("a", 300), "", "1", "0"}},
+	{name: "reset-on-empty-blank", nodes: [][3]string{{"root", "HALT; INCMP foo 1", "root"}, {"foo", "LOAD aa 10; HALT; INCMP _ 0", "foo"}, {"_catch", "HALT; INCMP _ *", "catch"}},
+		fn: map[string][]eFres{"aa": st1("v")}, cfg: eCfg{FlagCount: 1, ResetEmpty: true}, inputs: []string{"", "1", " ", "\t", "0", "1", "", "1"}},
 	{name: "first-terminate", nodes: [][3]string{{"root", "HALT; INCMP foo 1", "root"}, {"foo", "HALT; INCMP _ 0", "foo"}, {"_catch", "HALT; INCMP _ *", "catch"}},
 		cfg: eCfg{FlagCount: 1, First: []eFres{{Content: "hello"}, {Content: "blocked", Set: []uint32{6}}, {Content: "again"}}}, inputs: []string{"", "1", "0", "!bad", "1"}},
 	{name: "first-long-exit", nodes: [][3]string{{"root", "HALT; INCMP foo 1", "root"}, {"foo", "HALT; INCMP _ 0", "foo"}, {"_catch", "HALT; INCMP _ *", "catch"}},
@@ -1050,12 +1083,38 @@ func engineCase(idx int, kind string, g genOut, inputs [][]byte) (hx.Case, []eSt
 		Desc: map[string]interface{}{"nodes": g.desc, "cfg": g.cfg, "app": g.app, "long": long, "persisted": pers}}, append(long, pers...), nil
 }
 
+// C17: every history is served a second time with the refused inputs removed
+func c17Case(idx int, kind string, g genOut, inputs [][]byte) (hx.Case, []eStep, error) {
+	c1, st1, err := engineCase(idx, kind, g, inputs)
+	if err != nil {
+		return c1, nil, err
+	}
+	var filtered [][]byte
+	for _, in := range inputs {
+		if !refusedInput(in) {
+			filtered = append(filtered, in)
+		}
+	}
+	c2, _, err := engineCase(idx, kind, g, filtered)
+	if err != nil {
+		return c1, nil, err
+	}
+	c1.Term = fmt.Sprintf("(mkE17 %s %s)", c1.Term, c2.Term)
+	c1.Desc.(map[string]interface{})["filtered"] = c2.Desc
+	return c1, st1, nil
+}
+
 func runEngine(o opts) error {
+	mkCase := engineCase
 	w := &hx.Writer{Dir: o.out, Prop: o.prop, Imports: "Bytes Errors Consts Codec CacheModel StateModel NavModel RenderModel VmModel EngineModel CorrBase EngineCorr EngineMon",
 		CaseType: "ecase", Mism: "engine_mismatches", Viol: "engine_violations_" + strings.ToLower(o.prop), PerShard: 20}
+	if o.prop == "C17" {
+		mkCase = c17Case
+		w.CaseType, w.Mism, w.Viol, w.PerShard = "ecase17", "engine_mismatches17", "engine_violations_c17x", 12
+	}
 	for i, cc := range engineCorpus {
 		g, inputs := cc.build()
-		c, _, err := engineCase(i, "corpus:"+cc.name, g, inputs)
+		c, _, err := mkCase(i, "corpus:"+cc.name, g, inputs)
 		if err != nil {
 			return err
 		}
@@ -1070,7 +1129,7 @@ func runEngine(o opts) error {
 			}
 			gg := g
 			gg.cfg = &cfg
-			c, _, err := engineCase(i, "example", gg, genHistory(r, g.sels, 4+r.Intn(5)))
+			c, _, err := mkCase(i, "example", gg, genHistory(r, g.sels, 4+r.Intn(5)))
 			if err != nil {
 				return err
 			}
@@ -1081,7 +1140,7 @@ func runEngine(o opts) error {
 		r := hx.Rng(o.seed, "engine", i)
 		g := genApp(r)
 		inputs := genHistory(r, g.sels, 3+r.Intn(6))
-		c, steps, err := engineCase(i, "generated", g, inputs)
+		c, steps, err := mkCase(i, "generated", g, inputs)
 		if err != nil {
 			return err
 		}
